@@ -147,7 +147,7 @@ def section_at(obs, nmsgs):
 def interruptions(obs):
     """[(kind, nmsgs, step, section)] for every transition into pausing / suspending."""
     out = []
-    for (old, new), (n, step, nd) in zip(obs.trans, obs.trans_meta):
+    for (old, new), (n, step, nd, *_rw) in zip(obs.trans, obs.trans_meta):
         if new in ("pausing", "suspending"):
             out.append((new, n, step, section_at(obs, n)))
         elif new == "aborting" and old == "running":
@@ -220,7 +220,7 @@ def _cause_with_ndocs(obs):
         if c["api"] in ("abort", "stop", "halt") and c["outcome"] == "ret" and prev_ndocs is not None:
             ev.append((prev_steps, c["api"], prev_ndocs))
         prev_ndocs, prev_steps = c["ndocs"], c["steps"]
-    for (old, new), (n, step, nd) in zip(obs.trans, obs.trans_meta):
+    for (old, new), (n, step, nd, *_rw) in zip(obs.trans, obs.trans_meta):
         if new == "aborting" and old in ("running", "pausing", "suspending"):
             if not [r for r in obs.reqs if r["kind"] == "abort" and r["out"][0] == "ret" and r["step"] <= step]:
                 ev.append((step, "failed-pause", nd))
@@ -389,6 +389,9 @@ def c03_same_data(obs, ref_docs):
         tags.append("engine-stuck")
     if tags or obs.state != "idle":
         return sorted(set(tags))
+    for (old, new), meta in zip(obs.trans, obs.trans_meta):
+        if new in ("pausing", "suspending") and len(meta) > 3 and not meta[3]:
+            return sorted(set(tags))  # interrupted while the plan had declared itself non-rewindable: re-taking is not promised
     a, b = event_table(ref_docs), event_table(obs.docs)
     if len(a) != len(b):
         return ["number-of-runs-differs-from-uninterrupted-execution"]
